@@ -477,22 +477,31 @@ def toySums : Nat → Bytes → Nat × Nat
   | _, [] => (0, 0)
   | i, x :: xs => let r := toySums (i + 1) xs; ((x.toNat + r.1) % 65536, ((i + 1) * x.toNat + r.2) % 65536)
 
-def toyMac (key msg : Bytes) : Bytes :=
+/-- 64-byte toy hash, optionally salted with `key` (used directly by the toy AEAD tag) -/
+def toyHashK (key msg : Bytes) : Bytes :=
   let s := toySums 0 msg
   (List.range 64).map fun j =>
     UInt8.ofNat ((key.getD (j % (max key.length 1)) 0).toNat + s.1 * (j + 1) + s.2 * (2 * j + 1) + msg.length)
 
+/-- the toy MAC is the real HMAC construction (RFC 2104, as Python's `hmac.HMAC` computes it) over the toy hash
+with block size 16: `H((K ⊕ opad) ‖ H((K ⊕ ipad) ‖ m))`; so the real code may compute it through whatever
+`hmac` API it likes (one-shot, keyed object + `copy()`, …) -/
+def toyMac (key msg : Bytes) : Bytes :=
+  let k0 := if key.length > 16 then toyHashK [] key else key
+  let k := k0 ++ zeros (16 - k0.length)
+  toyHashK [] (k.map (· ^^^ 0x5c) ++ toyHashK [] (k.map (· ^^^ 0x36) ++ msg))
+
 /-- toy AEAD: ciphertext = xor keystream positioned by the nonce's low byte; tag = 16 toy-MAC bytes over
-nonce ‖ aad ‖ ciphertext keyed with the key byte -/
+nonce ‖ aad ‖ ciphertext salted with the key byte -/
 def toySeal (k : Nat) (iv pt aad : Bytes) : Bytes :=
   let ct := toyXorFrom k (beVal (iv.drop 4) % 65536) pt
-  ct ++ (toyMac [UInt8.ofNat k] (iv ++ aad ++ ct)).take 16
+  ct ++ (toyHashK [UInt8.ofNat k] (iv ++ aad ++ ct)).take 16
 
 def toyUnseal (k : Nat) (iv data aad : Bytes) : Option Bytes :=
   if data.length < 16 then none else
   let ct := data.take (data.length - 16)
   let tag := data.drop (data.length - 16)
-  if (toyMac [UInt8.ofNat k] (iv ++ aad ++ ct)).take 16 = tag then
+  if (toyHashK [UInt8.ofNat k] (iv ++ aad ++ ct)).take 16 = tag then
     some (toyXorFrom k (beVal (iv.drop 4) % 65536) ct)
   else none
 
